@@ -737,6 +737,71 @@ def wchoice(rng, table):
     return k, f
 
 
+def family_of(fn):
+    for k in sorted(FAMILY_OF_MODULE, key=len, reverse=True):
+        if fn.startswith(k + "."):
+            return FAMILY_OF_MODULE[k]
+    return None
+
+
+_SIG = {}
+
+
+def optional_params(fn):
+    """parameters of the real function that have a default (resolved in the check process)"""
+    if fn not in _SIG:
+        try:
+            import inspect
+            f = resolve(fn)
+            f = getattr(f, "py_func", f)
+            _SIG[fn] = {k for k, p in inspect.signature(f).parameters.items() if p.default is not inspect.Parameter.empty}
+        except Exception:  # noqa: BLE001
+            _SIG[fn] = set()
+    return _SIG[fn]
+
+
+def gen_call_of(rng, pool, fn, tries=80):
+    """a call of exactly `fn` (rejection sampling over its family's generator)"""
+    fam = family_of(fn)
+    if fam not in FAMILIES:
+        return None
+    for _ in range(tries):
+        p2 = dict(pool)
+        spec = FAMILIES[fam][0](rng, p2)
+        if spec["fn"] == fn:
+            pool.update(p2)
+            return spec
+    return None
+
+
+def gen_targeted_history(rng, n, fn):
+    """a history that hammers one function: varied parameters, many calls that rely on the defaults, few shared rasters"""
+    pool, hist = {}, []
+    opt = optional_params(fn)
+    while len(hist) < n:
+        u = rng.random()
+        if u < 0.12:
+            _, f = wchoice(rng, PERTURBERS)
+            hist.append(f(rng, pool))
+            continue
+        if u < 0.25:
+            k, (f, _) = rng.choice(sorted(FAMILIES.items()))
+            if k != "viewshed":
+                hist.append(f(rng, pool))
+                continue
+        spec = gen_call_of(rng, pool, fn)
+        if spec is None:
+            return None
+        if rng.random() < 0.6:       # rely on the defaults
+            for k in list(spec["kw"]):
+                if k in opt and rng.random() < 0.7:
+                    del spec["kw"][k]
+        if rng.random() < 0.3:
+            spec["scribble"] = True
+        hist.append(spec)
+    return dict(history=hist, pool=pool)
+
+
 def gen_history(rng, max_len, focus=None, allow_viewshed=True):
     n = rng.randrange(max(4, max_len // 2), max_len + 1)
     pool, hist = {}, []
@@ -1090,7 +1155,7 @@ def suspects(lab):
     return bad, par, list(dict.fromkeys(fams))
 
 
-def run(r, budget=None, focus=None):
+def run(r, budget=None, focus=None, histories=None):
     lab = Lab(r)
     try:
         tier = r.tier
@@ -1123,8 +1188,11 @@ def run(r, budget=None, focus=None):
                 r.case(dict(corpus=c.get("fn")), nontrivial=True, tags=["corpus"])
                 if still_fails(lab, c, f"corpus{lab.n}"):
                     r.fail(f"{c['kind']}:{c['fn']}", "corpus case still fails", c)
-        generator_oracle(r, {"quick": 6, "thorough": 30}[tier])
-        hs = [gen_history(r.rng, max_len, focus=focus, allow_viewshed=(tier == "thorough" or k == 0)) for k in range(n_hist)]
+        if histories is None:
+            generator_oracle(r, {"quick": 6, "thorough": 30}[tier])
+            hs = [gen_history(r.rng, max_len, focus=focus, allow_viewshed=(tier == "thorough" or k == 0)) for k in range(n_hist)]
+        else:
+            hs = histories
         futs = [lab.orch.submit(check_history, lab, h, f"h{k}-{lab.n}", configs_for(k)) for k, h in enumerate(hs)]
         for k, (h, f) in enumerate(zip(hs, futs)):
             fails = f.result()
@@ -1144,11 +1212,25 @@ def search(r):
         r.notes.append(f"search: summaries no longer noStale/confined: {bad[:8]}; parallel/cached kernels: {par[:8]}; families {fams}")
     finally:
         lab.close()
-    if any("generate_terrain" in b or "perlin" in b for b in r.broken) or True:
-        generator_oracle(r, 12)
+    generator_oracle(r, 12)
     if r.failures:
         return
-    for round_ in range({"quick": 2, "thorough": 4}[r.tier]):
+    # 1. hammer each suspect function: many calls of it, defaults relied upon, shared rasters
+    n = {"quick": 14, "thorough": 30}[r.tier]
+    per = {"quick": 2, "thorough": 4}[r.tier]
+    targeted = []
+    for fn in [f for f in bad if family_of(f) in FAMILIES][:4]:
+        for _ in range(per):
+            h = gen_targeted_history(r.rng, n, fn)
+            if h:
+                targeted.append(h)
+    if targeted:
+        r.tag("targeted-histories", len(targeted))
+        run(r, budget=(len(targeted), n), histories=targeted)
+        if r.failures:
+            return
+    # 2. histories concentrated on the suspect families
+    for round_ in range({"quick": 1, "thorough": 3}[r.tier]):
         run(r, budget=({"quick": 4, "thorough": 8}[r.tier], {"quick": 14, "thorough": 40}[r.tier]), focus=fams or None)
         if r.failures:
             return
